@@ -581,6 +581,11 @@ func genRoot(g *Gen, flavour int) rootDesc {
 		b.sym("/usr/local/to-xattr", t)
 	}
 
+	if g.Chance(1, 4) && len(selFiles) > 0 { // symlink carrying an extended attribute of its own
+		b.sym("/usr/local/own-xattr", selFiles[g.Intn(len(selFiles))])
+		b.objs[b.idx["/usr/local/own-xattr"]].Xattrs = [][2]string{{"trusted.own", b.oddName()}}
+	}
+
 	d := rootDesc{Pkgs: pkgs, NoVDB: g.Chance(1, 4), EmptyDev: g.Chance(1, 2)}
 	// add-files script
 	ext := &rb{g: g, idx: map[string]int{}}
